@@ -52,3 +52,49 @@ Example C03_nonvacuous :
   reopened_at nv3_model (crash y) 0 = 7 /\
   Mon_C03 true nv3_cfg (log_of y) [(7, 0, (1, 7))] = true.
 Proof. vm_compute. repeat split. Qed.
+
+(* --- restart through the services --- *)
+(* pipeline.Service.Init maps a stored "running" (1) to "system-stopped" (2); lifecycle Init starts what
+   it finds system-stopped: a pipeline that was running is resumed, a user-stopped (3), degraded (4) or
+   recovering (5) one is not *)
+Theorem C03_running_resumes :
+  pipeline_init 1 = 2 /\ resumes 1 = true /\ resumes 2 = true /\
+  resumes 3 = false /\ resumes 4 = false /\ resumes 5 = false /\
+  (forall st, resumes st = true <-> st = 1 \/ st = 2).
+Proof. exact running_resumes. Qed.
+Print Assumptions C03_running_resumes.
+
+(* an observed restart through the real services that the model accepts satisfies the property *)
+Theorem C03_full_restart_accepted_satisfies_monitor : forall c l o,
+  full_acc c l o = true -> full_mon c l o = true.
+Proof. exact full_acc_mon. Qed.
+Print Assumptions C03_full_restart_accepted_satisfies_monitor.
+
+(* (run prefix, crash, restart) in one statement *)
+Theorem C03_crash_restart_no_record_skipped : forall m, 1 <= retries (m_cfg m) ->
+  forall acts stored_status s, s < nsrc (m_cfg m) ->
+  let y := run m (init_sys m) acts in
+  let l := log_of y in
+  let st := crash y in
+  match restart_system m st stored_status with
+  | None => resumes stored_status = false
+  | Some y' =>
+      resumes stored_status = true /\
+      y' = restart m st /\
+      stP (Src y' s) = snd (st s) /\ snd (st s) = stored_pos (m_cfg m) s l /\
+      (forall acts' r', In (ERead s r') (log_of (run (restart_cfg m st) y' acts')) -> snd (st s) < r') /\
+      (engine_in_order (m_cfg m) s l ->
+       forall r, In r (ereads s l) -> (forall ks, In ks (eacks s l) -> ~ In r ks) -> snd (st s) < r) /\
+      (fixed (m_cfg m) = true -> forall l1 n ks l2, l = l1 ++ EPAck s n ks :: l2 -> n <= fst (st s))
+  end.
+Proof. exact crash_restart_no_record_skipped. Qed.
+Print Assumptions C03_crash_restart_no_record_skipped.
+
+(* non-vacuity: the crash of C03_nonvacuous with the pipeline stored as running / as user-stopped *)
+Example C03_crash_restart_nonvacuous :
+  let y := run nv3_model (init_sys nv3_model) nv3_schedule in
+  (exists y', restart_system nv3_model (crash y) 1 = Some y' /\ stP (Src y' 0) = 7) /\
+  restart_system nv3_model (crash y) 3 = None /\
+  full_acc nv3_cfg (log_of y) (mkFO 7 1 2 true 1 [mkFS 0 true 1 7 [8; 9; 10]]) = true /\
+  full_mon nv3_cfg (log_of y) (mkFO 7 1 2 true 1 [mkFS 0 true 1 6 [7; 8; 9]]) = false.
+Proof. vm_compute. repeat split. eexists. split; reflexivity. Qed.
